@@ -46,6 +46,21 @@ func c20Dump() string {
 	return string(buf[:n])
 }
 
+// clock seam: the build-time overlay of tools/c20.py sends the timer constructors used inside
+// waitReloadReadyOrSignal through these wrappers (same behaviour; the harness counts how often a timeout
+// is armed)
+var verifC20Timers atomic.Int64
+
+func verifC20NewTimer(d time.Duration) *time.Timer {
+	verifC20Timers.Add(1)
+	return time.NewTimer(d)
+}
+
+func verifC20After(d time.Duration) <-chan time.Time {
+	verifC20Timers.Add(1)
+	return time.After(d)
+}
+
 func newC20Logger() *logrus.Logger {
 	l := logrus.New()
 	l.SetOutput(io.Discard)
@@ -477,6 +492,30 @@ func c20Run(cs c20Case) (res c20Result) {
 				startedAt = time.Now().Add(-time.Duration(op.ElapsedNs))
 			}
 			ret = int64(remainingReloadRetirementBudget(startedAt, time.Duration(op.BudgetNs)))
+		case "SW":
+			// k reload/suspend/hangup signals arrive one after the other while the main loop waits for the new
+			// generation (each is sent when the previous one has been taken: events, no sleeps), then readiness
+			// is reported.  Observable: how many timers the wait armed.
+			long := c20Long()
+			sigs := make(chan os.Signal) // unbuffered: a send returns when the loop has taken the signal
+			ready := make(chan bool, 1)
+			before := verifC20Timers.Load()
+			k := op.D
+			go func() {
+				kinds := []os.Signal{syscall.SIGUSR1, syscall.SIGUSR2, syscall.SIGHUP}
+				for i := 0; i < k; i++ {
+					select {
+					case sigs <- kinds[i%3]:
+					case <-time.After(long):
+					}
+				}
+				ready <- true
+			}()
+			r, _ := waitReloadReadyOrSignal(log, sigs, ready, 8*long)
+			if r != reloadReadyWaitReady {
+				note = fmt.Sprintf("wait-result-%d", r)
+			}
+			ret = verifC20Timers.Load() - before
 		case "S":
 			// a reload signal arrives while the main loop is inside waitReloadReadyOrSignal
 			sigs := make(chan os.Signal, 1)
